@@ -79,6 +79,8 @@ type (
 		Collation    *string // mysql
 		Engine       *string // mysql
 		AutoInc      int64   // mysql (0 = absent)
+		AutoIncCols  []string   // sqlite: columns carrying sqlite.AutoIncrement
+		Uniques      [][]string // sqlite: inline UNIQUE constraints (raw setup only; Atlas never prints them)
 	}
 	Schema struct {
 		Name   string
@@ -148,6 +150,11 @@ func (t Table) clone() Table {
 		d.FKs = append(d.FKs, f.clone())
 	}
 	d.Checks = append([]Check(nil), t.Checks...)
+	d.AutoIncCols = append([]string(nil), t.AutoIncCols...)
+	d.Uniques = nil
+	for _, u := range t.Uniques {
+		d.Uniques = append(d.Uniques, append([]string(nil), u...))
+	}
 	d.Comment, d.Charset, d.Collation, d.Engine = cpS(t.Comment), cpS(t.Charset), cpS(t.Collation), cpS(t.Engine)
 	return d
 }
@@ -250,7 +257,13 @@ func build(dialect string, s Schema) *schema.Schema {
 			tabs[ts.Name] = t
 		}
 		for _, cs := range ts.Cols {
-			t.Columns = append(t.Columns, buildCol(dialect, cs))
+			c := buildCol(dialect, cs)
+			for _, a := range ts.AutoIncCols {
+				if a == cs.Name {
+					c.Attrs = append(c.Attrs, &sqlite.AutoIncrement{})
+				}
+			}
+			t.Columns = append(t.Columns, c)
 		}
 		if ts.PK != nil {
 			t.PrimaryKey = buildIdx(dialect, t, *ts.PK)
@@ -300,7 +313,9 @@ func build(dialect string, s Schema) *schema.Schema {
 		for _, fs := range ts.FKs {
 			fk := &schema.ForeignKey{Symbol: fs.Symbol, Table: t, OnUpdate: schema.ReferenceOption(fs.OnUpdate), OnDelete: schema.ReferenceOption(fs.OnDelete)}
 			for _, c := range fs.Cols {
-				fk.Columns = append(fk.Columns, colOf(t, c))
+				col := colOf(t, c)
+				fk.Columns = append(fk.Columns, col)
+				col.ForeignKeys = append(col.ForeignKeys, fk) // as ForeignKey.AddColumns (sql/schema/dsl.go)
 			}
 			rt, ok := tabs[fs.RefTable]
 			if !ok { // a table outside the schema
@@ -358,6 +373,7 @@ func buildIdx(dialect string, t *schema.Table, is Idx) *schema.Index {
 		p := &schema.IndexPart{SeqNo: ps.Seq, Desc: ps.Desc}
 		if ps.Col != "" {
 			p.C = colOf(t, ps.Col)
+			p.C.AddIndexes(idx) // as Index.AddParts (sql/schema/dsl.go)
 		} else if ps.Expr != "" {
 			p.X = &schema.RawExpr{X: ps.Expr}
 		}
